@@ -324,6 +324,10 @@ def run(rep, facts, tier):
         curve_constants(rep, f, cfgname)
         from . import statics
         statics.check_statics(rep, f, cfgname)
+    if "A" in facts:
+        # src/ark_curve/bls12_377.rs is among C17's anchors: the tower / curve constants of the pairing engine
+        from . import c16
+        c16.engine_parameters(rep, facts["A"])
     rep.analysed["constants_evaluated"] = n_consts
     rep.analysed["cfgs"] = sorted(facts.keys())
     rep.extra["exhaustive"] = True
